@@ -383,72 +383,120 @@ func c15Run(j vs.Job) *vs.JobResult {
 			r.Violate("c15:fd-tree", "300-entry tree differs: "+d, nil)
 		}
 	case "mutate":
-		// a source file changes length between the scan and the read
+		// a source file changes length between the scan and the read, and after every k-th read of the producer
+		// (k = 0: before the first read; the file may be unopened, open and partly read, or done by then)
 		for _, which := range []int{0, 1, 2} {
 			for _, change := range []string{"shrink", "shrink-to-0", "grow"} {
 				for _, rs := range []int{1, 7, 64, 32768} {
-					src := fresh()
-					must(os.MkdirAll(filepath.Join(src, "r", "d"), 0o755))
-					names := []string{filepath.Join(src, "r", "a.bin"), filepath.Join(src, "r", "d", "b.bin"), filepath.Join(src, "r", "z.bin")}
-					for i, n := range names {
-						must(os.WriteFile(n, genContent('T', i, 500+i*100), 0o644))
+					if rs == 1 && j.Tier != "thorough" {
+						continue
 					}
-					files, _ := checkPathsReadable([]string{filepath.Join(src, "r")}, true)
-					t := newTransfer(io.Discard, nil, false, nil)
-					t.transferConfig.Protocol = kProtocolVersion4
-					top := t.archiveSourceFiles(files)[0]
-					rd, err := t.newArchiveReader(top)
-					must(err)
-					switch change {
-					case "shrink":
-						must(os.Truncate(names[which], 100))
-					case "shrink-to-0":
-						must(os.Truncate(names[which], 0))
-					case "grow":
-						f, _ := os.OpenFile(names[which], os.O_APPEND|os.O_WRONLY, 0)
-						f.Write(bytes.Repeat([]byte("G"), 300))
-						f.Close()
-					}
-					var stream []byte
-					buf := make([]byte, rs)
-					var rerr error
-					for i := 0; i < 1<<20; i++ {
-						n, e := rd.Read(buf)
-						stream = append(stream, buf[:n]...)
-						if e != nil {
-							if e != io.EOF {
-								rerr = e
+					reads := 0 // learnt from the run with when = 0
+					for when := 0; when <= reads; when++ {
+						src := fresh()
+						must(os.MkdirAll(filepath.Join(src, "r", "d"), 0o755))
+						names := []string{filepath.Join(src, "r", "a.bin"), filepath.Join(src, "r", "d", "b.bin"), filepath.Join(src, "r", "z.bin")}
+						for i, n := range names {
+							must(os.WriteFile(n, genContent('T', i, 500+i*100), 0o644))
+						}
+						files, _ := checkPathsReadable([]string{filepath.Join(src, "r")}, true)
+						t := newTransfer(io.Discard, nil, false, nil)
+						t.transferConfig.Protocol = kProtocolVersion4
+						top := t.archiveSourceFiles(files)[0]
+						rd, err := t.newArchiveReader(top)
+						must(err)
+						mutate := func() {
+							switch change {
+							case "shrink":
+								must(os.Truncate(names[which], 100))
+							case "shrink-to-0":
+								must(os.Truncate(names[which], 0))
+							case "grow":
+								f, _ := os.OpenFile(names[which], os.O_APPEND|os.O_WRONLY, 0)
+								f.Write(bytes.Repeat([]byte("G"), 300))
+								f.Close()
 							}
-							break
 						}
-					}
-					rd.Close()
-					r.Execs++
-					r.Nontrivial++
-					if strings.HasPrefix(change, "shrink") {
-						if rerr == nil {
-							// no error: then at least nothing may be shifted — reconstruct and look
-							dst := fresh()
-							cerr := c15Consume(dst, top, stream, nil)
-							r.Violate("c15:shrink-silent", fmt.Sprintf("file #%d %s between scan and read (read size %d): the producer reported no error (stream %d of %d announced bytes, consumer error %v)", which, change, rs, len(stream), rd.getSize(), cerr), nil)
+						var stream []byte
+						buf := make([]byte, rs)
+						var rerr error
+						nreads := 0
+						for i := 0; i < 1<<20; i++ {
+							if i == when {
+								mutate()
+							}
+							n, e := rd.Read(buf)
+							nreads++
+							stream = append(stream, buf[:n]...)
+							if e != nil {
+								if e != io.EOF {
+									rerr = e
+								}
+								break
+							}
 						}
-					} else if rerr != nil {
-						r.Violate("c15:grow-error", fmt.Sprintf("file #%d grew between scan and read (read size %d): %v", which, rs, rerr), nil)
-					} else {
-						// the entries after the grown file must still be in place and intact
-						dst := fresh()
-						if cerr := c15Consume(dst, top, stream, nil); cerr != nil {
-							r.Violate("c15:grow-consume", fmt.Sprintf("file #%d grew (read size %d): consumer failed: %v", which, rs, cerr), nil)
-						} else {
+						if when == 0 && change == "grow" {
+							reads = nreads // a grown file is streamed in full: the number of reads of an undisturbed run
+						} else if when == 0 {
+							reads = (1800+700)/rs + 8 // beyond the end of any stream of this tree
+							if rs >= 2508 {
+								reads = 3
+							}
+						}
+						rd.Close()
+						r.Execs++
+						r.Nontrivial++
+						intact := func(dst string, alsoMutated bool) string {
 							a, b := snapshot(filepath.Join(src, "r")), snapshot(filepath.Join(dst, "r"))
 							for k, v := range a {
-								if !strings.HasSuffix(names[which], k) && b[k] != v {
-									r.Violate("c15:grow-shift", fmt.Sprintf("file #%d grew (read size %d): entry %s was shifted or damaged: %s vs %s", which, rs, k, v, b[k]), nil)
+								if strings.HasSuffix(names[which], k) {
+									continue
+								}
+								if b[k] != v {
+									return fmt.Sprintf("entry %s was shifted or damaged: %s vs %s", k, v, b[k])
 								}
 							}
+							return ""
+						}
+						if strings.HasPrefix(change, "shrink") {
+							if rerr == nil {
+								// no error: only right when the file had been read completely before it shrank — the stream
+								// is then complete and every entry in place
+								dst := fresh()
+								cerr := c15Consume(dst, top, stream, nil)
+								bad := ""
+								switch {
+								case int64(len(stream)) != rd.getSize():
+									bad = fmt.Sprintf("stream of %d bytes, %d announced", len(stream), rd.getSize())
+								case cerr != nil:
+									bad = fmt.Sprintf("consumer error %v", cerr)
+								default:
+									bad = intact(dst, false)
+								}
+								if bad != "" {
+									moment := "between scan and read"
+									if when > 0 {
+										moment = "while the stream was being read"
+									}
+									r.Violate("c15:shrink-silent", fmt.Sprintf("file #%d %s %s (after read %d, read size %d): the producer reported no error (%s)", which, change, moment, when, rs, bad), nil)
+								}
+							}
+						} else if rerr != nil {
+							r.Violate("c15:grow-error", fmt.Sprintf("file #%d grew after read %d (read size %d): %v", which, when, rs, rerr), nil)
+						} else {
+							// the entries after the grown file must still be in place and intact
+							dst := fresh()
+							if cerr := c15Consume(dst, top, stream, nil); cerr != nil {
+								r.Violate("c15:grow-consume", fmt.Sprintf("file #%d grew after read %d (read size %d): consumer failed: %v", which, when, rs, cerr), nil)
+							} else if d := intact(dst, false); d != "" {
+								r.Violate("c15:grow-shift", fmt.Sprintf("file #%d grew after read %d (read size %d): %s", which, when, rs, d), nil)
+							}
+						}
+						os.RemoveAll(src)
+						if len(r.Violations) > 5 {
+							return r
 						}
 					}
-					os.RemoveAll(src)
 				}
 			}
 		}
@@ -461,7 +509,7 @@ func init() {
 		ID:    "C15",
 		Level: "exploration",
 		Rule: "every tree shape with <= 4 entries over {directory, empty file, 1-byte file, 3-byte file} and depth <= 2 x producer read sizes {1,2,3,7,64,32768} x consumer segmentation {whole, every single cut, uniform sizes 1..8}; every pair of cuts on three core trees; a tree with files of several read buffers, unicode names and empty directories cut at and around every header/payload boundary; " +
-			"a 300-entry tree with descriptor counts taken after every read / write (GC off); each of three files shrinking, emptied or growing between scan and read x four read sizes",
+			"a 300-entry tree with descriptor counts taken after every read / write (GC off); each of three files shrinking, emptied or growing between scan and read and after every k-th read of the producer (every moment of the stream) x read sizes {7,64,32768} (thorough: also 1)",
 		Assumptions: []string{"real file system in a scratch directory on tmpfs", "descriptor use is counted in /proc/self/fd with the garbage collector disabled so that finalizers cannot hide a leak"},
 		QuickBudget: 100, ThoroughBudget: 600, DiedIsViolation: true,
 		Jobs: func(tier string) []vs.Job {
